@@ -76,13 +76,13 @@ func genC12(t *tape.Tape, tier string) any {
 }
 
 type c12World struct {
-	env  *core.Env
-	c    *c12Case
-	mu   sync.Mutex
-	seen map[string]int // token -> times the next hop saw it
-	full []byte         // the faulty token's intended full reply
-	sent int            // bytes of it actually written before the cut
-	faultAt time.Duration // simulated time at which the fault was applied (-1: not yet)
+	env     *core.Env
+	c       *c12Case
+	mu      sync.Mutex
+	seen    map[string]int // token -> times the next hop saw it
+	full    []byte         // the faulty token's intended full reply
+	sent    int            // bytes of it actually written before the cut
+	faultAt time.Duration  // simulated time at which the fault was applied (-1: not yet)
 }
 
 func (w *c12World) healthyReply(tok string, head bool) []byte {
@@ -414,10 +414,10 @@ func runC12(env *core.Env, ci any) {
 
 	type outcome struct {
 		doneAt time.Duration
-		tok   string
-		msg   *h1.Msg
-		err   error
-		probe *h1.Msg // for CONNECT: response to the probe through the tunnel
+		tok    string
+		msg    *h1.Msg
+		err    error
+		probe  *h1.Msg // for CONNECT: response to the probe through the tunnel
 	}
 	var outs []outcome
 	var probe outcome
@@ -707,9 +707,9 @@ func init() {
 			c := ci.(*c12Case)
 			return fmt.Sprintf("%s/%s/%s/b%d/%s/before%d/ct%d/dt%d/h10%v", c.Kind, c.Fault, c.RespKind, c.BodyLen, c.Method, c.Before, c.ConnectTO, c.DialTO, c.HTTP10)
 		},
-		Real: append([]string{"http_proxy_errors.go status mapping, martian writeErrorResponse / connect error paths, dialvia, net/http Transport error paths, crypto/tls verification"}, realForwarder...),
-		Stub: stubCommon,
-		Rule: "request kind (plain, via upstream proxy, CONNECT direct / via HTTP upstream / via HTTPS upstream, MITM-inner) x fault (dial refused, black-holed until DialTimeout/ConnectTimeout on the fake clock, RST at accept, TLS garbage / close mid-handshake / expired / wrong-name / untrusted certificate, upstream proxy rejecting CONNECT with 3xx-5xx with or without body, FIN or RST after k bytes of the reply for k drawn over the whole reply, malformed status line / header / chunk size, Content-Length too long / too short) x reply framing x healthy exchanges before and after on the same connection; distinct = shape x (k mod 512). Oracle: strict client parser; complete X-Forwarder-Error response with mapped status, or closed connection after partial relay; never a complete-looking but truncated/altered/mixed response; fresh-connection probe afterwards; worker process death = crash.",
+		Real:        append([]string{"http_proxy_errors.go status mapping, martian writeErrorResponse / connect error paths, dialvia, net/http Transport error paths, crypto/tls verification"}, realForwarder...),
+		Stub:        stubCommon,
+		Rule:        "request kind (plain, via upstream proxy, CONNECT direct / via HTTP upstream / via HTTPS upstream, MITM-inner) x fault (dial refused, black-holed until DialTimeout/ConnectTimeout on the fake clock, RST at accept, TLS garbage / close mid-handshake / expired / wrong-name / untrusted certificate, upstream proxy rejecting CONNECT with 3xx-5xx with or without body, FIN or RST after k bytes of the reply for k drawn over the whole reply, malformed status line / header / chunk size, Content-Length too long / too short) x reply framing x healthy exchanges before and after on the same connection; distinct = shape x (k mod 512). Oracle: strict client parser; complete X-Forwarder-Error response with mapped status, or closed connection after partial relay; never a complete-looking but truncated/altered/mixed response; fresh-connection probe afterwards; worker process death = crash.",
 		Assumptions: []string{"status is checked strictly only for refused connect (502), black-holed connect (504), certificate/TLS-garbage failures (502) and rejected CONNECT (upstream's status); any 5xx is accepted elsewhere", "close-delimited replies are excluded from the truncation rule (truncation is invisible there)"},
 	})
 }
